@@ -600,3 +600,51 @@ pub fn write_scene(scene: &Scene) -> Result<Vec<u8>, String> {
     drop(w);
     Ok(h.bytes())
 }
+
+/// Enumerated position sweep: a leading blob of every length 4r (r = 0..255)
+/// places the following sections at every 4-byte residue modulo the 1020 byte
+/// page payload; the clouds have packet-capacity-boundary point counts.
+pub fn sweep_programs(thorough: bool) -> Vec<Program> {
+    use e57ref::fx::F64;
+    use e57ref::scene::RType;
+    let r = |name: &str, ty: RType| Rec { prefix: None, name: name.to_string(), ty };
+    let p1 = vec![
+        r("cartesianX", RType::Double { min: None, max: None }),
+        r("cartesianY", RType::Double { min: None, max: None }),
+        r("cartesianZ", RType::Double { min: None, max: None }),
+        r("intensity", RType::Int { min: 0, max: 6 }),
+    ];
+    let p2 = vec![
+        r("cartesianX", RType::Scaled { min: -50000, max: 50000, scale: F64(0.001), offset: F64(0.0) }),
+        r("cartesianY", RType::Single { min: None, max: None }),
+        r("cartesianZ", RType::Int { min: i64::MIN, max: i64::MAX }),
+        r("colorRed", RType::Int { min: 0, max: 255 }),
+        r("colorGreen", RType::Int { min: 0, max: 1023 }),
+        r("colorBlue", RType::Int { min: 7, max: 7 }),
+        r("rowIndex", RType::Int { min: 0, max: 4 }),
+    ];
+    let cap = |p: &[Rec]| gen::cap_hint(p).unwrap_or(100) as u32;
+    let mut out = Vec::new();
+    for res in 0..255u32 {
+        let mut variants: Vec<(&Vec<Rec>, u32)> = vec![(&p1, if res % 3 == 0 { cap(&p1) + 1 } else { 9 }), (&p2, 7)];
+        if thorough {
+            variants = vec![(&p1, cap(&p1) - 1), (&p1, cap(&p1)), (&p1, cap(&p1) + 1), (&p2, cap(&p2) + 1), (&p2, 7)];
+        }
+        for (k, (proto, n)) in variants.into_iter().enumerate() {
+            let cloud = |guid: &str, n: u32, seed: u64| {
+                Op::Cloud(CloudSpec { guid: guid.to_string(), proto: proto.clone(), n, seed, nan_ok: true, meta: CloudMeta::default(), finalize: true })
+            };
+            out.push(Program {
+                guid: format!("{{sweep-{res}-{k}}}"),
+                ops: vec![
+                    Op::Blob(BlobSpec { len: 4 * res, seed: 2 * res as u64 + 1 }),
+                    cloud("{first}", n, res as u64 * 31 + k as u64),
+                    cloud("{second}", 3, 5),
+                    Op::Blob(BlobSpec { len: 3, seed: 9 }),
+                ],
+                end: End::Finalize,
+            });
+        }
+    }
+    out
+}
